@@ -97,12 +97,12 @@ def run(prop, tier):
 
     def one(job):
         fam, cfgp = job
-        r = lib.run_tlc("BaseParsersMC", cfgp, workers=min(4, lib.NCPU), tag="bp-" + fam, timeout=1800,
+        r = lib.run_tlc("BaseParsersMC", cfgp, workers=(2 if lib.NCPU >= 4 else 1), tag="bp-" + fam, timeout=1800,
                         raw_cases=True, coverage=(fam in ("search", "after")))
         return fam, lib.require_ok(r, "BaseParsers model " + fam)
 
     models, cases = [], []
-    with concurrent.futures.ThreadPoolExecutor(max_workers=min(3, max(1, lib.NCPU // 4))) as ex:
+    with concurrent.futures.ThreadPoolExecutor(max_workers=max(1, min(len(jobs), lib.NCPU // 2))) as ex:
         for fam, r in ex.map(one, jobs):
             for i, line in enumerate(r.cases):
                 c = lib.parse_case(line)
